@@ -17,7 +17,9 @@ KEYS = [('m', 'margin', False), ('p', 'padding', False), ('lh', 'line-height', T
 SUFFIXES = ['', 'p', 'e', 'x', 'r', 'px', '%', 'vh']
 ALIAS = {'p': '%', 'e': 'em', 'x': 'ex', 'r': 'rem'}
 NUM_LITS = [('0', False), ('1', False), ('10', False), ('-5', False), ('.5', True), ('1.', True), ('1.25', True), ('-.5', True),
-            ('1000000', False), ('2147483647', False), ('1234.567', True), ('.125', True)]
+            ('1000000', False), ('2147483647', False), ('1234.567', True), ('.125', True),
+            # every spelling of zero stays bare
+            ('0.', True), ('.0', True), ('0.0', True), ('00', False)]
 ALPHAS = ['', '.5', '.25', '.0']
 HEX = '0123456789abcdef'
 CH6 = ['00', '01', '0b', '10', '11', '7f', '80', 'b0', 'e7', 'ff']
